@@ -8,7 +8,7 @@ let l_of_spec s = match split_on '.' s with
   | [d; ig; ss; cr; c] -> { c_contents = []; c_payload = []; c_dsap = zi d; c_ig = (ig = "1"); c_ssap = zi ss; c_cr = (cr = "1"); c_control = zi c }
   | _ -> failwith "llc spec"
 let ldesc = { fresh = llc_fresh; decode = llc_decode_into; serialize = Some llc_serialize; fields = lfields;
-  contents = (fun l -> l.c_contents); payload = (fun l -> l.c_payload); next = (fun l -> i (llc_next l));
+  contents = (fun l -> l.c_contents); payload = (fun l -> l.c_payload); next = (fun _ l -> i (llc_next l));
   render_panics = llc_render_panics; of_spec = l_of_spec; junk_len = 8 }
 
 let sfields (l : snap) = Printf.sprintf "oui=%s;ty=%s" (hex_of_bytes l.s_oui) (i l.s_type)
@@ -16,7 +16,7 @@ let s_of_spec s = match split_on '.' s with
   | [o; t] -> { s_contents = []; s_payload = []; s_oui = (if o = "-" then [] else bytes_of_hex o); s_type = zi t }
   | _ -> failwith "snap spec"
 let sdesc = { fresh = snap_fresh; decode = snap_decode_into; serialize = Some snap_serialize; fields = sfields;
-  contents = (fun l -> l.s_contents); payload = (fun l -> l.s_payload); next = (fun l -> i (snap_next l));
+  contents = (fun l -> l.s_contents); payload = (fun l -> l.s_payload); next = (fun _ l -> i (snap_next l));
   render_panics = snap_render_panics; of_spec = s_of_spec; junk_len = 8 }
 
 let run id ops out = match ops with
